@@ -311,37 +311,52 @@ fn classify_recovered(p: &Program, h: &[Op], act_log: &[(usize, Key)], msg: &str
         }
     }
     let fl = hist::flatten(h);
-    let (_, at) = hist::snapshots(p, &fl);
-    let cut = at.iter().position(|a| *a > session).unwrap_or(fl.len());
-    let n = p.nodes.len() as u8;
-    let order: Vec<Key> =
-        if top_down { (0..n).rev().map(Key::C).collect() } else { (0..n).map(Key::C).collect() };
-    let mut hh: Vec<Op> = fl[..cut].to_vec();
-    // restarts / drains do not matter for the shape
-    hh.retain(|o| !matches!(o, Op::Restart | Op::Drain));
-    let removed_before = |i: usize| fl[..i].iter().filter(|o| matches!(o, Op::Restart | Op::Drain)).count();
-    let acts: Vec<(usize, Key)> = act_log
-        .iter()
-        .filter(|(s, _)| *s < cut)
-        .map(|(s, k)| (*s - removed_before(*s), *k))
+    let (snaps, at) = hist::snapshots(p, &fl);
+    // The recovered session is identified by its inputs only; when several
+    // committed sessions have the same inputs (an edit that was reverted, a
+    // commit that repeats a value) the store may be that of any of them, so
+    // the shape is looked for in the history up to each, latest first.
+    let mut candidates: Vec<usize> = (0..snaps.len())
+        .filter(|j| snaps.get(session).is_some_and(|s| s.inputs == snaps[*j].inputs))
         .collect();
-    let fstep = hh.len();
-    hh.push(Op::Query(order.clone()));
-    let pseudo = hist::Finding {
-        property: "C01",
-        step: fstep,
-        fstep,
-        what: String::new(),
-        key: Some(Key::C(node)),
-        got: Some(got),
-        reader: None,
-        root: order.first().copied(),
-        stale_dep: None,
-    };
-    hist::classify(p, &hh, &acts, &pseudo)
-        .into_iter()
-        .filter(|t| t.starts_with("F10"))
-        .collect()
+    if candidates.is_empty() {
+        candidates.push(session);
+    }
+    candidates.reverse();
+    for session in candidates {
+        let cut = at.iter().position(|a| *a > session).unwrap_or(fl.len());
+        let n = p.nodes.len() as u8;
+        let order: Vec<Key> =
+            if top_down { (0..n).rev().map(Key::C).collect() } else { (0..n).map(Key::C).collect() };
+        let mut hh: Vec<Op> = fl[..cut].to_vec();
+        // restarts / drains do not matter for the shape
+        hh.retain(|o| !matches!(o, Op::Restart | Op::Drain));
+        let removed_before = |i: usize| fl[..i].iter().filter(|o| matches!(o, Op::Restart | Op::Drain)).count();
+        let acts: Vec<(usize, Key)> = act_log
+            .iter()
+            .filter(|(s, _)| *s < cut)
+            .map(|(s, k)| (*s - removed_before(*s), *k))
+            .collect();
+        let fstep = hh.len();
+        hh.push(Op::Query(order.clone()));
+        let pseudo = hist::Finding {
+            property: "C01",
+            step: fstep,
+            fstep,
+            what: String::new(),
+            key: Some(Key::C(node)),
+            got: Some(got),
+            reader: None,
+            root: order.first().copied(),
+            stale_dep: None,
+        };
+        let tags: Vec<String> =
+            hist::classify(p, &hh, &acts, &pseudo).into_iter().filter(|t| t.starts_with("F10")).collect();
+        if !tags.is_empty() {
+            return tags;
+        }
+    }
+    vec![]
 }
 
 pub fn check(property: &'static str) -> i32 {
